@@ -235,6 +235,8 @@ class Histogram1D(ObjectWithBinning, HistogramBase):
         underflow = np.nan
         overflow = np.nan
         keep_missed = False
+        if isinstance(index, np.integer):
+            index = int(index)
         if isinstance(index, int):
             return self.bins[index], self.frequencies[index]
         if isinstance(index, np.ndarray):
